@@ -575,3 +575,4 @@ def replay(ctx, payload):
         eval_rw_cases(ctx, [case])
     else:
         eval_cases(ctx, [case])
+THEOREMS += ['seqs_step', 'gen_seqs', 'drawSeq_is_seqs']   # translator tie: generated function bodies = model (Props/C06Gen.lean)
